@@ -308,7 +308,8 @@ class ElementList(MutableSequence):
 
         # just copy the first element of the ElementProxy (e.g. message.pid = message2.pid)
         if isinstance(value, ElementProxy):
-            value = value[0].to_er7()
+            # the copy is parsed with this element's delimiters, which may differ from the source's
+            value = value[0].to_er7(self.element.encoding_chars)
 
         name = name.upper()
         reference = None if name is None else self.element.find_child_reference(name)
